@@ -9,7 +9,10 @@ PROOF_FILES = ["Proof/RunCore.v", "Proof/RunExtra.v", "Proof/RunTable.v", "Proof
 MANIFEST = {
     "text": "Coq theorems over all finite test programs and all histories of earlier runs of the same instance (any nesting of cleanup registration, any exceptions incl. "
             "nested/empty MultipleExceptions, KeyboardInterrupt/SystemExit, user subclasses, expectThat/force_failure, "
-            "skip and expectedFailure decorators, missing upcalls, fixtures) and all seven result flavours about a "
+            "skip and expectedFailure decorators, missing upcalls, fixtures), all seven result flavours and all configurations of the "
+            "RunTest factory (RunTest, subclasses and functions with explicit / star / keyword-only / ** signatures, functools.partial, "
+            "callable objects, bound methods, factories written for the API before last_resort; installed as run_tests_with, "
+            "runTest= or @run_test_with with and without extra keyword arguments) about a "
             "hand-written Gallina model of RunTest/TestCase.run: the delivered calls are startTest, exactly one "
             "outcome, stopTest; the first exception not derived from Exception is reported as the error and "
             "propagates after stopTest, and setUp, the test and tearDown (iff setUp returned) and every registered "
@@ -38,6 +41,9 @@ RULE = ("programs = setUp/test/tearDown bodies over statements (raise any of ~25
 TRUSTED = ["the result doubles of testtools.testresult.doubles and a logging testtools.TestResult subclass are the "
            "observation devices", "fixtures.Fixture setUp/cleanUp (fixtures 4.3.2) is modelled, not verified"]
 ASSUMPTIONS = ["the result object and addOnException handlers do not raise",
+               "a RunTest factory builds a plain testtools.RunTest from the arguments it is given, does not raise and is the "
+               "same for every run of the instance (15 factory shapes x 4 ways of installing, Model.Run.factory / via); "
+               "custom RunTest subclasses overriding _run_user / _run_core etc. are outside (AsynchronousDeferredRunTest: C12-C14)",
                "in a history of runs of one instance the skip / expectedFailure decorators are the same in every run (they "
                "belong to the class) and the handlers put in front of exception_handlers before the first run are kept",
                "user-inserted exception handlers are for Exception-derived classes (others: C03)",
@@ -52,7 +58,7 @@ FEATS_INS = frozenset(["insert", "onexc", "fixture"])      # handlers for Except
 
 def drive(case):
     # the instance first goes through the earlier runs of its history; the observation is that of the last run
-    o = R.run_history(list(case.get("prev", [])) + [case["prog"]], case["flavour"])[-1]
+    o = R.run_history(list(case.get("prev", [])) + [case["prog"]], case["flavour"], runner=case.get("runner"))[-1]
     evs = [[e[0], e[1]] if e[0] == "out" else [e[0]] for e in o["trace"] if e[0] != "H"]
     return {"events": evs, "raised": o["raised"], "ran": [e[1] for e in o["log"] if e[0] == "t"]}
 
@@ -70,7 +76,7 @@ def t_ev(e):
 
 def term(case, o):
     i = q.record([("i_prev", q.lst([R.t_prog(p) for p in case.get("prev", [])])), ("i_prog", R.t_prog(case["prog"])),
-                  ("i_flavour", case["flavour"])])
+                  ("i_flavour", case["flavour"]), ("i_runner", R.t_runner(case.get("runner")))])
     ob = q.record([("o_events", q.lst([t_ev(e) for e in o["events"]])), ("o_raised", RK[o["raised"]]),
                    ("o_ran", q.lst([q.nat(t) for t in o["ran"]]))])
     return q.pair(i, ob)
@@ -101,12 +107,37 @@ def _exception_handlers_only(p):
     return dict(p, handlers=[h for h in p["handlers"] if not base(h[0])])
 
 
-def history(prev, prog, flavour):
+def history(prev, prog, flavour, runner=None):
     """a case whose instance has already run the programs of `prev` (oldest first).  The decorators belong to the
     class, so every run has the ones of the observed program; the handlers present before the first run are
-    those of the first program."""
+    those of the first program; `runner`: the RunTest factory installed on the case ([factory, via]; None: none)."""
     prev = [dict(p, skip=prog["skip"], xfail=prog["xfail"]) for p in prev]
-    return {"prev": prev, "prog": prog, "flavour": flavour}
+    c = {"prev": prev, "prog": prog, "flavour": flavour}
+    if runner:
+        c["runner"] = list(runner)
+    return c
+
+
+def runner_programs():
+    """what the configured RunTest has to cope with: an exception outside Exception in each stage and in a cleanup,
+    alone and together with ordinary failures (before and after it), inside MultipleExceptions, through the
+    expectedFailure wrapper; and runs without one (pass, fail, error, skip, error in a cleanup, forced failure)"""
+    E, M = R.E, R.M
+    yield R.mkprog(setup=[["raise", E("Kbd")]])
+    yield R.mkprog(body=[["raise", E("Kbd")]])
+    yield R.mkprog(teardown=[["raise", E("SysExit", 1)]])
+    yield R.mkprog(setup=[["cleanup", 10, []], ["cleanup", 11, [["raise", E("SysExit")]]], ["cleanup", 12, []]])
+    yield R.mkprog(setup=[["cleanup", 10, [["raise", E("ValueError")]]]], body=[["raise", E("Kbd")]])
+    yield R.mkprog(body=[["raise", E("Fail")]], teardown=[["raise", E("GenExit")]])
+    yield R.mkprog(body=[["raise", M(E("ValueError"), E(R.SUBKBD), E("Fail"))]], teardown=[["raise", E("Skip", 1)]])
+    yield R.mkprog(xfail=True, body=[["raise", E("SysExit")]])
+    yield R.mkprog(setup=[["cleanup", 10, [["cleanup", 11, [["raise", E(R.CUSTOMBASE)]]]]]], body=[["expect", []]])
+    yield R.mkprog()
+    yield R.mkprog(body=[["raise", E("Fail", 1)]])
+    yield R.mkprog(setup=[["raise", E("ValueError")]])
+    yield R.mkprog(body=[["raise", E("Skip", 2)]], teardown=[["cleanup", 10, [["raise", E("ValueError")]]]])
+    yield R.mkprog(body=[["force"]])
+    yield R.mkprog(skip=["method", 1], body=[["raise", E("Kbd")]])
 
 
 def history_programs():
@@ -186,6 +217,19 @@ def generate(rng, tier):
     for k, p in enumerate(fixed):
         cases.append(history([p], R.mkprog(skip=p["skip"], xfail=p["xfail"]), R.FLAVOURS[k % 7]))
         cases.append(history([p, p], p, R.FLAVOURS[(k + 2) % 7]))
+    # the configuration: every RunTest factory x every way of installing it x interrupts in every stage
+    rp = list(runner_programs())
+    for j, rn in enumerate(R.runners()):
+        for k, p in enumerate(rp):
+            for f in (R.FLAVOURS if tier == "thorough" else [R.FLAVOURS[(j + k) % 7]]):
+                cases.append(history([], p, f, rn))
+        # ... and on an instance that has been run (and interrupted) before: every run builds a fresh RunTest
+        cases.append(history([rp[4]], rp[9], R.FLAVOURS[j % 7], rn))
+        cases.append(history([rp[10], rp[1]], rp[3], R.FLAVOURS[(j + 1) % 7], rn))
+        if tier == "thorough":
+            for k, p in enumerate(fixed):
+                cases.append(history([], p, R.FLAVOURS[(j + k) % 7], rn))
+                cases.append(history([p], rp[k % len(rp)], R.FLAVOURS[(j + k + 2) % 7], rn))
     # bounded-exhaustive core
     k = 0
     for p, combo in R.core_programs(max_cleanups=0):
@@ -239,29 +283,45 @@ def generate(rng, tier):
                                                       depth=2, p_raise=r2.choice([0.5, 0.8])))
                  for _ in range(r2.choice([2, 2, 3, 4]))]
         cases.append(history(progs[:-1], progs[-1], r2.choice(R.FLAVOURS)))
+    # random programs and histories under a random configuration (a stream of its own)
+    r3 = __import__("random").Random(rng.random())
+    rns = R.runners()
+    for _ in range(700 if tier == "quick" else 20000):
+        progs = [_exception_handlers_only(R.rand_prog(r3, feats=r3.choice([FEATS, frozenset(), FEATS_INS]),
+                                                      depth=2, p_raise=r3.choice([0.5, 0.8])))
+                 for _ in range(r3.choice([1, 1, 1, 2, 3]))]
+        cases.append(history(progs[:-1], progs[-1], r3.choice(R.FLAVOURS), r3.choice(rns)))
     return cases
 
 
 def shrink(case):
     prev = list(case.get("prev", []))
+    rn = case.get("runner")
     for k in range(len(prev)):
-        yield history(prev[:k] + prev[k + 1:], case["prog"], case["flavour"])
+        yield history(prev[:k] + prev[k + 1:], case["prog"], case["flavour"], rn)
+    for r in R.shrink_runner(rn):
+        yield history(prev, case["prog"], case["flavour"], r)
     for p in R.shrink_prog(case["prog"]):
         if p["skip"] == case["prog"]["skip"] and p["xfail"] == case["prog"]["xfail"] or not prev:
-            yield history(prev, p, case["flavour"])
+            yield history(prev, p, case["flavour"], rn)
     for k, pk in enumerate(prev):
         for p in R.shrink_prog(pk):
             if p["skip"] == pk["skip"] and p["xfail"] == pk["xfail"]:
-                yield history(prev[:k] + [p] + prev[k + 1:], case["prog"], case["flavour"])
+                yield history(prev[:k] + [p] + prev[k + 1:], case["prog"], case["flavour"], rn)
     if case["flavour"] != "FExtended":
-        yield history(prev, case["prog"], "FExtended")
+        yield history(prev, case["prog"], "FExtended", rn)
 
 
 def distribution(cases):
     d = R.prog_distribution([c["prog"] for c in cases])
     d["flavour"] = {}
     d["earlier_runs_of_the_instance"] = {}
+    d["runtest_factory"] = {}
+    d["factory_installed_via"] = {}
     for c in cases:
+        rn = c.get("runner") or ["RunTest (default)", "not installed"]
+        d["runtest_factory"][rn[0]] = d["runtest_factory"].get(rn[0], 0) + 1
+        d["factory_installed_via"][rn[1]] = d["factory_installed_via"].get(rn[1], 0) + 1
         d["flavour"][c["flavour"]] = d["flavour"].get(c["flavour"], 0) + 1
         n = len(c.get("prev", []))
         d["earlier_runs_of_the_instance"][n] = d["earlier_runs_of_the_instance"].get(n, 0) + 1
